@@ -92,6 +92,19 @@ func trees(tier string) []*ukit.Spec {
 		)
 		out = append(out, &ukit.Spec{Kind: ukit.KScope, Root: "Root", Objects: []*ukit.Spec{root, obj("A", "outer-A"), obj("B", "outer-B")}})
 	}
+	// a struct-mapped root whose pointer field is a reference to a pointer-mapped struct of another namespace (and whose
+	// by-value field is one of the scope's own)
+	for _, ns := range []string{"n1", "n2"} {
+		root := &ukit.Spec{Kind: ukit.KObject, ID: "Root", Struct: "SNest", Props: []ukit.Prop{
+			{Name: "sub", Type: ref("Own", "")},
+			{Name: "p", Type: ref("SP", ns)},
+			{Name: "x", Type: &ukit.Spec{Kind: ukit.KString}},
+		}}
+		own := &ukit.Spec{Kind: ukit.KObject, ID: "Own", Struct: "SA", Props: []ukit.Prop{
+			{Name: "s", Type: &ukit.Spec{Kind: ukit.KString}, Required: true},
+			{Name: "i", Type: &ukit.Spec{Kind: ukit.KInt}}}}
+		out = append(out, &ukit.Spec{Kind: ukit.KScope, Root: "Root", Objects: []*ukit.Spec{root, own}})
+	}
 	// references below a disabled property (disabled before anything is linked, as the builders and a loaded
 	// description do it): a disabled property rejects values, its type is still part of the schema
 	for _, ns := range nss {
@@ -145,6 +158,10 @@ func chainTrees() []*ukit.Spec {
 func external(ns string) []*ukit.Spec {
 	return []*ukit.Spec{obj("A", ns+"-A"), obj("B", ns+"-B"),
 		// a struct-mapped object: its values are Go structs, which a one-of recognises by their type
+		// the same mapped to a pointer (*SA): the type of a pointer field
+		{Kind: ukit.KObject, ID: "SP", Struct: "SA*", Props: []ukit.Prop{
+			{Name: "s", Type: &ukit.Spec{Kind: ukit.KString}, Required: true},
+			{Name: "i", Type: &ukit.Spec{Kind: ukit.KInt}}}},
 		{Kind: ukit.KObject, ID: "SA", Struct: "SA", Props: []ukit.Prop{
 			{Name: "s", Type: &ukit.Spec{Kind: ukit.KString}, Required: true},
 			{Name: "i", Type: &ukit.Spec{Kind: ukit.KInt, Min: ukit.I64(0), Max: ukit.I64(5)}, Default: ukit.Str("2")}}}}
